@@ -1,4 +1,159 @@
 package main
 
-// hostile sends a malformed / protocol-violating message (C08); filled in by the C08 check.
-func (w *world) hostile(a action) {}
+import (
+	capnp "capnproto.org/go/capnp/v3"
+	rpccp "capnproto.org/go/capnp/v3/std/capnp/rpc"
+)
+
+// hostile sends one malformed or protocol-violating message (C08).  a.Kind names the violation;
+// a.Q is the question / answer id it abuses (or a fresh one), a.N an id that does not exist.
+func (w *world) hostile(a action) {
+	msg, rm := w.newMsg()
+	e := J{"ev": "hostile", "kind": a.Kind, "q": a.Q}
+	w.log(e)
+	rec := J{"m": "hostile:" + a.Kind, "q": a.Q}
+	call := func(q int) rpccp.Call {
+		c, _ := rm.NewCall()
+		c.SetQuestionId(uint32(q))
+		c.SetInterfaceId(meth.InterfaceID)
+		c.SetMethodId(meth.MethodID)
+		return c
+	}
+	switch a.Kind {
+	case "call-unknown-export":
+		c := call(a.Q)
+		t, _ := c.NewTarget()
+		t.SetImportedCap(uint32(a.N))
+		fillParams(c, 900+a.Q, -1, "")
+	case "call-unknown-answer":
+		c := call(a.Q)
+		t, _ := c.NewTarget()
+		pa, _ := t.NewPromisedAnswer()
+		pa.SetQuestionId(uint32(a.N))
+		fillParams(c, 900+a.Q, -1, "")
+	case "call-reused-question":
+		// a.Q is an id already in use
+		c := call(a.Q)
+		t, _ := c.NewTarget()
+		t.SetImportedCap(0)
+		fillParams(c, 900+a.Q, -1, "")
+	case "bootstrap-reused-question":
+		b, _ := rm.NewBootstrap()
+		b.SetQuestionId(uint32(a.Q))
+	case "call-bad-cap-receiverHosted", "call-bad-cap-receiverAnswer", "call-bad-cap-thirdParty", "call-bad-cap-unknown":
+		c := call(a.Q)
+		t, _ := c.NewTarget()
+		if a.On >= 0 {
+			pa, _ := t.NewPromisedAnswer()
+			pa.SetQuestionId(uint32(a.On))
+		} else {
+			t.SetImportedCap(0)
+		}
+		p, _ := c.NewParams()
+		s, _ := capnp.NewStruct(p.Segment(), capnp.ObjectSize{DataSize: 8, PointerCount: 1})
+		s.SetUint32(0, uint32(900+a.Q))
+		s.SetPtr(0, capnp.NewInterface(p.Segment(), 0).ToPtr())
+		tab, _ := p.NewCapTable(1)
+		switch a.Kind {
+		case "call-bad-cap-receiverHosted":
+			tab.At(0).SetReceiverHosted(uint32(a.N)) // no such export
+		case "call-bad-cap-receiverAnswer":
+			pa, _ := tab.At(0).NewReceiverAnswer()
+			pa.SetQuestionId(uint32(a.N))
+		case "call-bad-cap-thirdParty":
+			tab.At(0).NewThirdPartyHosted()
+		default:
+			tab.At(0).Struct.SetUint16(0, 77) // unknown union member
+		}
+		p.SetContent(s.ToPtr())
+	case "call-null-params":
+		c := call(a.Q)
+		t, _ := c.NewTarget()
+		t.SetImportedCap(0)
+	case "call-null-target":
+		c := call(a.Q)
+		fillParams(c, 900+a.Q, -1, "")
+	case "call-unknown-target-which":
+		c := call(a.Q)
+		t, _ := c.NewTarget()
+		t.Struct.SetUint16(4, 9)
+		fillParams(c, 900+a.Q, -1, "")
+	case "call-transform-unknown-op":
+		c := call(a.Q)
+		t, _ := c.NewTarget()
+		pa, _ := t.NewPromisedAnswer()
+		pa.SetQuestionId(uint32(a.On))
+		ops, _ := pa.NewTransform(2)
+		ops.At(0).SetGetPointerField(0)
+		ops.At(1).Struct.SetUint16(0, 9)
+		fillParams(c, 900+a.Q, -1, "")
+	case "sendresultsto-yourself":
+		c := call(a.Q)
+		t, _ := c.NewTarget()
+		t.SetImportedCap(0)
+		fillParams(c, 900+a.Q, -1, "")
+		c.SendResultsTo().SetYourself()
+	case "finish-unknown":
+		f, _ := rm.NewFinish()
+		f.SetQuestionId(uint32(a.N))
+	case "finish-twice":
+		f, _ := rm.NewFinish()
+		f.SetQuestionId(uint32(a.Q))
+	case "release-unknown":
+		r, _ := rm.NewRelease()
+		r.SetId(uint32(a.N))
+		r.SetReferenceCount(1)
+	case "release-too-many":
+		r, _ := rm.NewRelease()
+		r.SetId(0)
+		r.SetReferenceCount(1000)
+	case "return-unknown-question":
+		r, _ := rm.NewReturn()
+		r.SetAnswerId(uint32(a.N))
+		r.NewResults()
+	case "return-unknown-which":
+		r, _ := rm.NewReturn()
+		r.SetAnswerId(uint32(a.N))
+		r.Struct.SetUint16(6, 9)
+	case "disembargo-non-import":
+		d, _ := rm.NewDisembargo()
+		t, _ := d.NewTarget()
+		pa, _ := t.NewPromisedAnswer()
+		pa.SetQuestionId(uint32(a.Q))
+		d.Context().SetSenderLoopback(3)
+	case "disembargo-unknown-embargo":
+		d, _ := rm.NewDisembargo()
+		t, _ := d.NewTarget()
+		t.SetImportedCap(0)
+		d.Context().SetReceiverLoopback(uint32(a.N))
+	case "disembargo-unknown-context":
+		d, _ := rm.NewDisembargo()
+		t, _ := d.NewTarget()
+		t.SetImportedCap(0)
+		d.Context().SetAccept()
+	case "resolve":
+		r, _ := rm.NewResolve()
+		r.SetPromiseId(uint32(a.N))
+	case "provide":
+		p, _ := rm.NewProvide()
+		p.SetQuestionId(uint32(a.Q))
+	case "accept":
+		p, _ := rm.NewAccept()
+		p.SetQuestionId(uint32(a.Q))
+	case "join":
+		p, _ := rm.NewJoin()
+		p.SetQuestionId(uint32(a.Q))
+	case "unknown-message":
+		rm.Struct.SetUint16(0, 99)
+	case "abort":
+		x, _ := rm.NewAbort()
+		x.SetReason("verif-peer-abort")
+	case "empty-message":
+		// a message whose root is a null pointer
+		m2, _, _ := capnp.NewMessage(capnp.SingleSegment(nil))
+		msg = m2
+	}
+	rec["ev"], rec["dir"] = "msg", "recv"
+	w.log(rec)
+	w.toConn <- msg
+}
